@@ -106,6 +106,12 @@ func c04ConcealedIds(c *caseCtx) {
 	if c.rng.Intn(3) == 0 {
 		o.biasSeq = []string{pick(c.rng, []string{"preferenceReversal", "criteriaOmission"}), "criteriaConcealment"}
 	}
+	if c.idx%4 == 3 {
+		// three stages: the concealed values of ALL known alternatives matter once an anchoring (last, its results are
+		// not exact) takes its reference point from alternatives that may not be considered
+		o.biasSeq = []string{"criteriaConcealment", "anchoring"}
+		o.allCons, o.anchorZeroCoef = 2, true
+	}
 	g := genRequest(c.rng, o)
 	// rename the alternatives
 	perm := c.rng.Perm(len(hostileAltIds))
@@ -119,6 +125,17 @@ func c04ConcealedIds(c *caseCtx) {
 	ch := g.M["choseToMake"].([]interface{})
 	for i := range ch {
 		ch[i] = ren[ch[i].(string)]
+	}
+	for _, b := range g.M["biases"].([]interface{}) {
+		if ps, ok := b.(M)["props"].(M); ok {
+			if aas, ok := ps["anchoringAlternatives"].([]interface{}); ok {
+				for _, aa := range aas {
+					if id, ok := aa.(M)["alternative"].(string); ok {
+						aa.(M)["alternative"] = ren[id]
+					}
+				}
+			}
+		}
 	}
 	if c.rng.Intn(3) == 0 {
 		// values for criteria nobody declared (input the weighted sum accepts and ignores): they take no part in anything,
